@@ -24,6 +24,8 @@ theorem C19_cell_unmerged (s : DC) (tc : Xml) (h : cellUnmerged tc = true) :
     closeTableCell true s tc = closeTableCell false s tc := by
   unfold closeTableCell
   unfold cellUnmerged at h
+  split
+  · rfl
   cases hp : gatherPr tc with
   | error e => rfl
   | ok pr =>
